@@ -156,7 +156,7 @@ func graphiteExpected(w *workload, c graphiteCfg) []rec {
 					out = append(out, rec{Name: n.path(n.counter, s.Name, "histogram"), Tags: graphiteTags(append(append([]string(nil), s.Tags...), leTag(b)), s.Source, n.tags), Val: float64(cnt), Class: "timer.histogram", Ser: i})
 				}
 				for _, suffix := range allTimerSubs() {
-					out = append(out, rec{Name: n.path(n.timer, s.Name, suffix), Tags: tg, Class: gsdSummary, Ser: i, Forbidden: true})
+					out = append(out, rec{Name: n.path(n.timer, s.Name, suffix), Tags: tg, Class: gsdClass(s), Ser: i, Forbidden: true})
 				}
 				continue
 			}
